@@ -91,11 +91,21 @@ Fixpoint run_notifiers (h : heap) (s : state) (on_trait : bool) (ns : list notif
 (* _trait_added_observer.py: the maintainer on x.trait_added whose graph g starts with the named trait that was
    just added applies g to x through a _RestrictedNamedTraitObserver: observables and objects of the new trait,
    notifier and maintainers of the wrapped observer, NO extra graph (the trait_added maintainer is there already).
-   That is the registration plan of g at x on the new heap without its trait_added entry. *)
-Definition entry_eqb (a b : entry) : bool := obsv_eqb (fst a) (fst b) && akey_eqb (snd a) (snd b).
+   That is the registration plan of g at x on the new heap without the applicability test and without its
+   trait_added entry. *)
 Definition plan_restricted (h : heap) (k : key) (g : graph) (x : oid) : pl :=
-  let '(es, sf) := plan h k false g x in
-  (filter (fun e => negb (entry_eqb e ((x, F_TA), AMaint MTA g k))) es, sf).
+  match g with
+  | G n cs =>
+      match n with
+      | NNamed f _ _ =>
+          (* _RestrictedNamedTraitObserver: iter_observables yields x._trait(f, 2), iter_objects the value of f;
+             notifier and maintainers are those of the wrapped named observer; no extra graph *)
+          pseq (if node_notify n then p_ok [((x, f), AUser k)] else p_ok [])
+               (pseq (p_ok (map (fun c => ((x, f), AMaint MNamed c k)) cs))
+                     (pl_all (fun c => pl_all (fun y => plan h k false c y) (links h x f)) cs))
+      | NItems _ _ _ => p_ok []       (* never wrapped: only named observers contribute a trait_added graph *)
+      end
+  end.
 Definition walk_plan (p : pl) (rm : bool) (H : hooks) : hooks * option exn :=
   let '(es, sf) := p in
   let '(H1, L, e) := exec rm es H [] in
